@@ -10,7 +10,9 @@ independently, with plain sqlite3 (gvmon/dbdump.py).
 Case kinds (all replayable through execute): "gtf" (the basic workload), "gtf-large" (1100-2500 lines, rebuilt from
 case["gen"] = {seed, where, nlines}: the file's own gene/transcript lines late / early / both / none), "gtf-odd" (ids and
 values with 'word=', '%41', blanks, non-ASCII: the file must still be read as GTF), "gtf-oneshot" (case["how"] =
-generator | iterator of Features, case["checklines"]).
+generator | iterator of Features, case["checklines"]), "gtf-shared" (a transcript id annotated under 2-3 gene ids;
+case["perms"] = line orders of case["model"], all imported and compared with the model and with one another).  Models made
+by G.make_edge_seqids (seqids that start/end with a blank-like character) run as "gtf" / "gtf-oneshot" cases.
 """
 import os
 import random
@@ -31,14 +33,30 @@ RULE = ("GTF files of 1-3 genes x 1-3 transcripts x 0-4 subfeature lines ('exon'
         "both sides / nowhere; (odd ids) gene/transcript ids and attribute values containing 'word=' (also as the value of "
         "the first attribute of every line), '%41'-like sequences, inner/double/trailing blanks, non-ASCII letters; "
         "(one-shot) the file handed over as a generator or iterator of Feature objects built line by line with "
-        "feature_from_line, more than checklines+2 features, checklines in {0, 1, 10}. non-trivial = >= 2 transcripts in "
+        "feature_from_line, more than checklines+2 features, checklines in {0, 1, 10}; (edge seqids) the seqid of all lines of "
+        "1..all genes starts and/or ends with a blank-like character or consists of one (space, two spaces, NBSP U+00A0, U+3000, "
+        "U+2009, form feed, vertical tab, U+0085, U+001F; not CR/LF, which end a line), imported from a path or one-shot: derived "
+        "genes/transcripts must sit on exactly that seqid and be retrievable by id; (shared transcript id) 1-2 transcript ids "
+        "annotated under 2-3 of the 2-4 gene ids of one seqid and strand (neighbouring or far-apart loci), every (transcript, "
+        "gene) combination with >= 1 subfeature line, every gene id owning >= 1 subfeature line, at most one transcript line "
+        "for a shared id, ordinary transcripts and gene lines besides; each file under 4 line orders (as generated, reversed, "
+        "2 random), each judged against the model and all compared with one another. non-trivial = >= 2 transcripts in "
         "one gene and >= 1 transcript with >= 2 subfeature lines; distinct = file text + keys + flag combination + way of input")
 REQUIRED = ["imports", "derived features compared (id, type, seqid, strand)", "derived extents compared",
             "suppressed derived features confirmed absent", "relation rows compared", "children()/parents() calls compared with the model",
             "gene/transcript lines of the file compared (single feature, columns, attributes)", "db[id] lookups",
             "large files imported (> 1000 lines)", "gene/transcript lines standing after line 1000 compared",
             "derived features of large files compared", "odd ids: files read as GTF", "odd ids: derived features compared",
-            "one-shot inputs imported (generator/iterator of Features)", "one-shot: derived extents compared (all exons)"]
+            "one-shot inputs imported (generator/iterator of Features)", "one-shot: derived extents compared (all exons)",
+            "seqid edge: derived features on a seqid with a blank-like edge compared byte for byte",
+            "seqid edge: derived features on a seqid that STARTS with a blank-like character compared",
+            "seqid edge: derived features on a seqid that ENDS with a blank-like character compared",
+            "seqid edge: derived features compared after a one-shot input",
+            "shared transcript id: imports judged against the model",
+            "shared transcript id: pairs of line orders with identical derived features and relations",
+            "shared transcript id: derived transcripts spanning the exons of >= 2 genes compared",
+            "shared transcript id: derived genes all of whose exons belong to a shared transcript compared",
+            "shared transcript id: (gene, transcript, 1) rows of a transcript annotated under >= 2 genes expected"]
 REQUIRED_CLASSES = ["flags: infer both", "flags: no transcripts", "flags: no genes", "flags: infer nothing",
                     "file: gene/transcript lines present", "file: no gene/transcript lines", "file: explicit lines look derived (merge path)",
                     "file: transcript without exons", "keys: custom", "keys: default", "subfeature: custom",
@@ -46,12 +64,23 @@ REQUIRED_CLASSES = ["flags: infer both", "flags: no transcripts", "flags: no gen
                     "large: gene/transcript lines on both sides of line 1000",
                     "odd ids: eq", "odd ids: percent", "odd ids: blank", "odd ids: unicode",
                     "input: generator of Features", "input: iterator of Features",
-                    "one-shot: checklines=0", "one-shot: checklines=1", "one-shot: checklines=10"]
+                    "one-shot: checklines=0", "one-shot: checklines=1", "one-shot: checklines=10",
+                    "seqid edge: leading", "seqid edge: trailing", "seqid edge: both ends", "seqid edge: blank only",
+                    "seqid edge: space", "seqid edge: NBSP U+00A0", "seqid edge: U+3000", "seqid edge: form feed",
+                    "shared transcript id: under 2 gene ids", "shared transcript id: under 3 gene ids"]
 ASSUMPTIONS = [
     "the reference model gvmon/models/gtfinfer.py is a faithful reading of the statement",
     "exons (subfeature lines) of one transcript and of one gene share seqid and strand (otherwise 'the exons' seqid and "
-    "strand' is undefined); transcript ids are not shared between genes; gene ids, transcript ids and auto-generated ids "
-    "are pairwise different",
+    "strand' is undefined); gene ids, transcript ids and auto-generated ids are pairwise different",
+    "a transcript id annotated under several gene ids (shared-transcript class only): each gene id that owns >= 1 subfeature "
+    "line gets one derived gene spanning the subfeature lines carrying THAT gene id; the transcript gets one derived feature "
+    "spanning all subfeature lines carrying the transcript id; every line is a level-1 child of its transcript and a level-2 "
+    "child of the gene id it carries; the transcript is a level-1 child of every gene id it is annotated under; the result "
+    "does not depend on the line order.  Only files in which all those genes share seqid and strand, every gene id owns a "
+    "subfeature line and the shared id has at most one transcript line are generated (elsewhere the statement is silent); "
+    "the attributes of the derived transcript (which gene ids it lists) are not judged",
+    "a seqid is the exact text of the first column: blank-like characters at its edges (space, NBSP, U+3000, form feed, ...) "
+    "belong to it; 'on the exons' seqid' is judged byte for byte (CR and LF are line terminators and never part of a seqid)",
     "every exon / other line carries both ids; a transcript line carries both; a gene line carries only its gene id "
     "(possibly with an empty transcript id)",
     "with custom gtf_transcript_key/gtf_gene_key the matching id_spec {'gene': gene key, 'transcript': transcript key} is "
@@ -100,10 +129,42 @@ def model_of(case):
 
 
 def execute(ctx, case):
+    if case["kind"] == "gtf-shared":
+        return execute_shared(ctx, case)
+    import_one(ctx, case, model_of(case))
+
+
+def execute_shared(ctx, case):
+    """One file with a transcript id annotated under several gene ids, imported under each of case["perms"] (line orders):
+    every import is judged against the model, and what was stored must not depend on the order of the lines."""
+    base = model_of(case)
+    first = None
+    for perm in case["perms"]:
+        m = dict(G.reordered(base, perm), perm=list(perm))
+        got = import_one(ctx, case, m)
+        if not isinstance(got, dict):
+            return
+        ctx.mon("shared transcript id: imports judged against the model")
+        if first is None:
+            first = (perm, got)
+            continue
+        for what in ("derived", "relations"):
+            if got[what] != first[1][what]:
+                a, b = set(map(tuple, first[1][what])), set(map(tuple, got[what]))
+                return ctx.violation(case, {"why": "a transcript id annotated under several gene ids: the %s depend on the order of the lines"
+                                                   % ("derived features" if what == "derived" else "relations"),
+                                            "order_a": first[0], "order_b": list(perm), "only_a": sorted(a - b)[:10], "only_b": sorted(b - a)[:10],
+                                            "flags": [case["dit"], case["dig"]], "text_a": G.text_of(G.reordered(base, first[0])),
+                                            "text_b": G.text_of(m), "note": "B<n> = line n of case['model']"})
+        ctx.mon("shared transcript id: pairs of line orders with identical derived features and relations")
+
+
+def import_one(ctx, case, m):
+    """Import the file of model m under the flags of the case and judge it; returns a summary of what was stored (derived
+    features and relations, lines named by their position in the unshuffled model: a dict) or something else after a violation."""
     import gffutils
     from gffutils.feature import feature_from_line
 
-    m = model_of(case)
     lines = m["lines"]
     dit, dig = bool(case["dit"]), bool(case["dig"])
     tkey, gkey, sub = m["tkey"], m["gkey"], m["subfeature"]
@@ -145,7 +206,7 @@ def execute(ctx, case):
             db = gffutils.create_db(data, dbfn, **kw)
         except Exception as ex:
             ctx.violation(case, dict(info, why="create_db raised %s" % type(ex).__name__, error=repr(ex)))
-            return
+            return None
         ctx.mon("imports")
         if how != "path":
             ctx.mon("one-shot inputs imported (generator/iterator of Features)")
@@ -159,7 +220,7 @@ def execute(ctx, case):
             raise AssertionError("harness: generated file was not read as GTF: %r" % (text[:300],))
         if m.get("odd"):
             ctx.mon("odd ids: files read as GTF")
-        judge(ctx, case, db, exp, lines, info, m)
+        return judge(ctx, case, db, exp, lines, info, m)
     finally:
         if db is not None:
             try:
@@ -256,6 +317,19 @@ def judge(ctx, case, db, exp, lines, info, m):
             ctx.mon("derived features of large files compared")
         if m.get("odd"):
             ctx.mon("odd ids: derived features compared")
+        if both and want["seqid"] != want["seqid"].strip():
+            ctx.mon("seqid edge: derived features on a seqid with a blank-like edge compared byte for byte")
+            if want["seqid"] != want["seqid"].lstrip():
+                ctx.mon("seqid edge: derived features on a seqid that STARTS with a blank-like character compared")
+            if want["seqid"] != want["seqid"].rstrip():
+                ctx.mon("seqid edge: derived features on a seqid that ENDS with a blank-like character compared")
+            if oneshot:
+                ctx.mon("seqid edge: derived features compared after a one-shot input")
+        if m.get("shared"):
+            if ident in m["shared"] and both:
+                ctx.mon("shared transcript id: derived transcripts spanning the exons of >= 2 genes compared")
+            elif want["featuretype"] == "gene" and ident in shared_only(m):
+                ctx.mon("shared transcript id: derived genes all of whose exons belong to a shared transcript compared")
         bad = {k: (got[k], want[k]) for k in keys if got[k] != want[k]}
         if bad:
             what = "extent" if set(bad) <= {"start", "end"} else "/".join(sorted(bad))
@@ -276,6 +350,9 @@ def judge(ctx, case, db, exp, lines, info, m):
     triples = {(name2id[p] if p in name2id else p, name2id[c] if c in name2id else c, lv) for p, c, lv in exp["triples"]}
     rows = [tuple(r) for r in dump["relations"]]
     ctx.mon("relation rows compared", len(rows))
+    if m.get("shared"):
+        ctx.mon("shared transcript id: (gene, transcript, 1) rows of a transcript annotated under >= 2 genes expected",
+                sum(1 for p_, c_, lv in triples if lv == 1 and c_ in m["shared"]))
     if set(rows) != triples or len(rows) != len(set(rows)):
         selfrel = [r for r in rows if r[0] == r[1]]
         return ctx.violation(case, dict(info, why="self relation stored" if selfrel else "relations differ from the three-level hierarchy",
@@ -313,6 +390,20 @@ def judge(ctx, case, db, exp, lines, info, m):
                 return ctx.violation(case, dict(info, why="children(x, featuretype=subfeature) differs from the model", x=x,
                                                 got=ids, expected=want))
     ctx.mon("sql: INSERT INTO features traced", sqltrace.kinds().get("INSERT INTO features", 0))
+    # what was stored, lines named by their position in the unshuffled model (for comparisons between line orders)
+    perm = m.get("perm") or list(range(len(lines)))
+    canon = {by_tag["L%d" % j]["id"]: "B%d" % i for j, i in enumerate(perm)}
+    return {"derived": sorted([f["id"], f["featuretype"], f["seqid"], f["strand"], f["start"], f["end"]] for f in untagged),
+            "relations": sorted([canon.get(p_, p_), canon.get(c_, c_), lv] for p_, c_, lv in rows)}
+
+
+def shared_only(m):
+    """Gene ids all of whose subfeature lines carry a shared transcript id."""
+    own = {}
+    for rec in m["lines"]:
+        if rec["featuretype"] == m["subfeature"]:
+            own.setdefault(I.attr(rec, m["gkey"]), []).append(I.attr(rec, m["tkey"]) in m["shared"])
+    return {g for g, v in own.items() if all(v)}
 
 
 def classify(ctx, case, m=None):
@@ -344,6 +435,10 @@ def classify(ctx, case, m=None):
         names.append("odd ids: " + m["odd"])
     if case.get("how", "path") != "path":
         names += ["input: %s of Features" % case["how"], "one-shot: checklines=%d" % case["checklines"]]
+    for where, blank in m.get("edge_seqids") or ():
+        names += ["seqid edge: " + where, "seqid edge: " + blank]
+    if m.get("shared"):
+        names.append("shared transcript id: under %d gene ids" % max(len(v) for v in m["shared"].values()))
     for n in names:
         ctx.classes[n] += 1
     return any(len(v) >= 2 for v in tx_of_gene.values()) and any(n >= 2 for n in subs.values())
@@ -353,7 +448,8 @@ def one(ctx, case, m):
     execute(ctx, case)
     nontrivial = classify(ctx, case, m)
     text = G.text_of(m)
-    ctx.case((text, m["tkey"], m["gkey"], m["subfeature"], case["dit"], case["dig"], case.get("how"), case.get("checklines")), nontrivial,
+    ctx.case((text, m["tkey"], m["gkey"], m["subfeature"], case["dit"], case["dig"], case.get("how"), case.get("checklines"),
+              repr(case.get("perms"))), nontrivial,
              sample={"kind": case["kind"], "flags": [case["dit"], case["dig"]], "keys": [m["tkey"], m["gkey"], m["subfeature"]],
                      "input": case.get("how", "path"), "text": text[:800]})
 
@@ -389,6 +485,30 @@ def run(ctx):
         for dit, dig in combos:
             one(ctx, {"kind": "gtf-oneshot", "model": m, "how": how, "checklines": cl, "dit": dit, "dig": dig,
                       "db": "file" if rng.random() < 0.15 else "memory"}, m)
+    # -- (edge seqids) seqids that start / end with a blank-like character ----------------------------------------------
+    for i in range(ctx.budget(130, 3000)):
+        m = G.model(rng, odd=rng.choice(odd_kinds) if rng.random() < 0.1 else None)
+        G.make_edge_seqids(rng, m)
+        if i % 4 == 0:
+            cl = (0, 1, 10)[(i // 4) % 3]
+            if len(m["lines"]) > cl + 2:
+                one(ctx, {"kind": "gtf-oneshot", "model": m, "how": ("generator", "iterator")[(i // 12) % 2], "checklines": cl,
+                          "dit": False, "dig": False, "db": "memory"}, m)
+                continue
+        for dit, dig in ([(False, False)] if i % 3 else list(FLAG_NAMES)):
+            one(ctx, {"kind": "gtf", "model": m, "dit": dit, "dig": dig, "db": "file" if rng.random() < 0.15 else "memory"}, m)
+    # -- (shared transcript id) one transcript id under 2-3 gene ids, every file under several line orders ----------------
+    for i in range(ctx.budget(80, 2000)):
+        m = G.shared_model(rng)
+        n = len(m["lines"])
+        perms = [list(range(n)), list(range(n - 1, -1, -1))]
+        for _ in range(2):
+            p = list(range(n))
+            rng.shuffle(p)
+            perms.append(p)
+        rng.shuffle(perms)
+        for dit, dig in ([(False, False)] if i % 3 else list(FLAG_NAMES)):
+            one(ctx, {"kind": "gtf-shared", "model": m, "perms": perms, "dit": dit, "dig": dig, "db": "memory"}, m)
     # -- the basic workload --------------------------------------------------------------------------------------------
     for _ in range(ctx.budget(600, 16000)):
         m = G.model(rng)
@@ -410,7 +530,12 @@ MANIFEST = {
             "(own gene/transcript lines only after line 1000, only early, on both sides), on files whose ids and values "
             "contain 'word=', '%41'-like sequences, blanks and non-ASCII letters (still GTF: genes/transcripts must be "
             "derived), and on the file given as a one-shot generator/iterator of Features with checklines 0, 1, 10 (the "
-            "extents must be those of all exons). Held = no executed import disagreed.",
+            "extents must be those of all exons), on files whose seqids start or end with blank-like characters (derived features on "
+            "exactly the exons' seqid), and on files in which one transcript id is annotated under two or three gene ids: each "
+            "such file is imported under four line orders, every import is compared with the model (one gene per gene id over "
+            "ITS exons, one transcript over all exons of the id, the transcript a level-1 child of each of its genes) and the "
+            "stored derived features and relations of all orders must coincide. Held = no executed import disagreed.",
     "note": "Trusted: gvmon/models/gtfinfer.py, gvmon/models/hierarchy.py. Not judged: extents under a set flag, attributes of "
-            "derived features, features for ids that own no subfeature.",
+            "derived features, features for ids that own no subfeature. Not generated: a shared transcript id whose genes differ in "
+            "seqid/strand, or one of whose genes owns no subfeature line (create_db raises TypeError there when genes are inferred).",
 }
